@@ -685,6 +685,10 @@ fn build_case(rng: &mut Rng, p: &Program, main_h: &str, inc_h: &str, variant: u6
     if p.cxx && rng.chance(1, 3) {
         flags.push("--enable-cxx-namespaces".into());
     }
+    if p.cxx && rng.chance(1, 3) {
+        // the emitted `<Class>__bindgen_vtable` names the types of the virtual methods' signatures
+        flags.push("--vtable-generation".into());
+    }
     Case { prog: Some(p.clone()), main_h: main_h.to_owned(), inc_h: inc_h.to_owned(), flags, allow, block, recursive, cfg_types }
 }
 
